@@ -13,7 +13,10 @@
    execute_operation calls with scripts of their own, to any depth ([WExec]),
    work raising, validation absent/true/false/raising; [sc_val]: WHICH exception
    object a raising callback raises / which falsy object a rejecting validator
-   returns / what the work function returns), the request list
+   returns / what the work function returns; [sc_wsh] / [sc_vsh]: the SIGNATURES of
+   work_fn / validate_fn - how many positional arguments they accept, `*args`,
+   defaulted parameters, partials, bound methods, callable objects, also falsy ones -,
+   incl. signatures that do not accept the call execute_operation makes), the request list
    [reqs] (repeats, unregistered ids, resources held by others), priorities and
    the watchdog configuration [w] are universally quantified everywhere.
    The operation id [o] of execute_operation is any id that is not live: a
@@ -252,3 +255,53 @@ Theorem c14_callback_values_irrelevant :
     exec_in chk fl w sc encl s o p reqs = exec_in chk fl w sc' encl s o p reqs.
 Proof. exact values_irrelevant_proof. Qed.
 Print Assumptions c14_callback_values_irrelevant.
+
+(* "The work function runs at most once ... validation runs only after work completed; success is
+   reported only if both succeeded", in run counts: whatever the callables look like (any signature,
+   any script), the body of work_fn runs at most once during the call, that of validate_fn at most
+   once and only if work_fn's ran; a reported success means work_fn ran exactly once and, when a
+   validator was handed in (whatever its truth value as an object), it ran exactly once. *)
+Theorem c14_bodies_run_at_most_once :
+  forall fl w encl s o p reqs sc,
+    let res := snd (exec_in true fl w sc encl s o p reqs) in
+    (work_runs res <= 1)%nat /\ (validate_runs res <= 1)%nat /\
+    (validate_runs res = 1%nat -> work_runs res = 1%nat) /\
+    (r_success res = true ->
+       work_runs res = 1%nat /\ (has_validator sc = true -> validate_runs res = 1%nat)).
+Proof. exact run_counts_proof. Qed.
+Print Assumptions c14_bodies_run_at_most_once.
+
+(* A work function whose signature does not accept the call work_fn() (it needs an argument) raises
+   TypeError from the call itself: its body never runs, nothing is validated, failure is reported
+   (and c14_no_leak holds for this exit path like for every other) ... *)
+Theorem c14_uncallable_work_never_runs :
+  forall fl w encl s o p reqs sc,
+    accepts (sc_wsh sc) 0 = false ->
+    let res := snd (exec_in true fl w sc encl s o p reqs) in
+    work_runs res = 0%nat /\ validate_runs res = 0%nat /\ r_success res = false.
+Proof. exact uncallable_work_proof. Qed.
+Print Assumptions c14_uncallable_work_never_runs.
+
+(* ... and a validator that cannot take the result never runs and never lets the operation succeed *)
+Theorem c14_uncallable_validator_never_passes :
+  forall fl w encl s o p reqs sc,
+    has_validator sc = true -> accepts (sc_vsh sc) 1 = false ->
+    let res := snd (exec_in true fl w sc encl s o p reqs) in
+    validate_runs res = 0%nat /\ r_success res = false.
+Proof. exact uncallable_validator_proof. Qed.
+Print Assumptions c14_uncallable_validator_never_passes.
+
+(* The SHAPE of the callables decides nothing else.  Two scripts that differ only in the signatures
+   of their work functions / validators (zero-argument lambda, `*args`, a defaulted parameter, a
+   functools.partial, a bound method, a callable object, truthy or falsy), in the call itself or in
+   any nested call, such that each signature accepts the call execute_operation makes in the one
+   script iff it does in the other ([norm_sig]), have the same outcome: final state, success flag,
+   phase reached, callback log - hence the same run counts.  Together with
+   c14_callback_values_irrelevant: a work function that tolerates an extra argument and raises
+   TypeError from its body is treated exactly like a zero-argument one raising anything else. *)
+Theorem c14_signatures_irrelevant :
+  forall chk fl w sc sc' encl s o p reqs,
+    norm_sig sc = norm_sig sc' ->
+    exec_in chk fl w sc encl s o p reqs = exec_in chk fl w sc' encl s o p reqs.
+Proof. exact signatures_irrelevant_proof. Qed.
+Print Assumptions c14_signatures_irrelevant.
